@@ -42,6 +42,7 @@ fn replace_at(doc: &Doc, path: &Path, with: Doc) -> Option<Doc> {
 fn refresh(s: &mut Scenario) {
     s.has_dup = s.doc.has_dup_keys();
     s.has_exotic = crate::scenario::has_exotic(&s.doc);
+    s.has_nonfinite = crate::scenario::has_nonfinite(&s.doc);
 }
 
 pub fn minimise(prop: Prop, env: &Env, scn: &Scenario, rule: &str) -> (Scenario, usize) {
